@@ -321,10 +321,16 @@ def introduce_variables(exprs, vars):
     fun``). Inserts the variables into ``exprs`` before the first SMT-
     LIB command that is not ``set-info`` or ``set-logic``. In particular,
     new variables are added before the current variable declarations.
+    Comments before and between the leading commands are skipped.
     """
     pos = 0
     while pos < len(exprs):
         e = exprs[pos]
+        if e.is_leaf() and e.data[:1] == ';':
+            # a header comment: the declarations must not end up before the
+            # set-logic command that follows it
+            pos += 1
+            continue
         if not e.has_ident():
             break
         if e.get_ident() not in ['set-info', 'set-logic']:
